@@ -203,7 +203,12 @@ impl SparqlNumber {
         match self {
             SparqlNumber::NativeInt(inner) => *inner as f32,
             SparqlNumber::BigInt(inner) => inner.to_f32().unwrap_or(f32::NAN),
-            SparqlNumber::Decimal(inner) => inner.to_f32().unwrap_or(f32::NAN),
+            // NB: BigDecimal::to_f32 is to_f64 followed by a cast, which rounds twice;
+            // the standard float parser is correctly rounded
+            SparqlNumber::Decimal(inner) => inner
+                .to_scientific_notation()
+                .parse()
+                .unwrap_or(f32::NAN),
             SparqlNumber::Float(inner) => *inner,
             SparqlNumber::Double(inner) => *inner as f32,
         }
